@@ -32,6 +32,8 @@ pub struct Machine<T: CellT> {
     pub capmode: u8,
     /// serial numbers of supplied items of calls that panicked (may be leaked or dropped)
     pub forgiven: HashSet<u64>,
+    /// a fault is armed for the current call (the harness then makes no extra calls into element code)
+    pub in_fault: bool,
 }
 
 /// Everything the harness reads off a real owned array.
@@ -149,7 +151,7 @@ fn res_none() -> Value {
 
 impl<T: CellT + std::hash::Hash> Machine<T> {
     pub fn new(capmode: u8) -> Machine<T> {
-        Machine { handle: Handle::None, arr: None, held: Vec::new(), capmode, forgiven: HashSet::new() }
+        Machine { handle: Handle::None, arr: None, held: Vec::new(), capmode, forgiven: HashSet::new(), in_fault: false }
     }
 
     fn tight(&mut self) {
@@ -182,7 +184,8 @@ impl<T: CellT + std::hash::Hash> Machine<T> {
         match r {
             Ok(v) => v,
             Err(()) => {
-                if T::TRACKED {
+                // (after a fault leaks are tolerated anyway, and the supplied value may legitimately sit in the array)
+                if T::TRACKED && !self.in_fault {
                     self.forgiven.extend(supplied_serials);
                     self.forgiven.extend(value_serial);
                 }
@@ -255,6 +258,10 @@ impl<T: CellT + std::hash::Hash> Machine<T> {
             }
             "d_drop" => {
                 self.handle = Handle::None;
+                res_unit()
+            }
+            "d_forget" => {
+                std::mem::forget(std::mem::replace(&mut self.handle, Handle::None));
                 res_unit()
             }
             _ => self.call_live(op, a, conc, supplied, value, mode),
@@ -367,12 +374,42 @@ impl<T: CellT + std::hash::Hash> Machine<T> {
                 res_unit()
             }
             "sort_by_row" => {
-                arr.sort_by_row(conc[0], |x, y| x.key().cmp(&y.key()));
+                arr.sort_by_row(conc[0], |x, y| { fault::tick(fault::Site::Cmp); x.key().cmp(&y.key()) });
                 res_unit()
             }
             "sort_by_col" => {
-                arr.sort_by_col(conc[0], |x, y| x.key().cmp(&y.key()));
+                arr.sort_by_col(conc[0], |x, y| { fault::tick(fault::Site::Cmp); x.key().cmp(&y.key()) });
                 res_unit()
+            }
+            "leak_borrow" => {
+                let taken = get_u64(a, "taken") as usize;
+                let (nc, nr) = (arr.num_cols(), arr.num_rows());
+                match a["what"].as_str().unwrap() {
+                    "rows" => { let mut i = arr.rows(); for _ in 0..taken { i.next(); } std::mem::forget(i); }
+                    "rows_mut" => { let mut i = arr.rows_mut(); for _ in 0..taken { i.next_back(); } std::mem::forget(i); }
+                    "col" => { if nc > 0 { let mut i = arr.col(nc - 1); for _ in 0..taken { i.next(); } std::mem::forget(i); } }
+                    "col_mut" => { if nc > 0 { let mut i = arr.col_mut(0); for _ in 0..taken { i.next_back(); } std::mem::forget(i); } }
+                    "cells" => { let mut i = arr.cells(); for _ in 0..taken { i.next(); i.next_back(); } std::mem::forget(i); }
+                    "cells_mut" => { let mut i = arr.cells_mut(); for _ in 0..taken { i.next(); i.next_back(); } std::mem::forget(i); }
+                    "view" => { let v = arr.view((0, 0), (nc.min(taken + 1).min(nc), nr)); std::mem::forget(v); }
+                    "view_mut" => { let v = arr.view_mut((0, 0), (nc, nr.min(taken + 1).min(nr))); std::mem::forget(v); }
+                    w => panic!("harness: leak_borrow {w}"),
+                }
+                res_unit()
+            }
+            "clone" if self.in_fault => {
+                let c = (*arr).clone();
+                let ids = origins_of(c.data());
+                drop(c);
+                json!({"k": "ids", "v": ids})
+            }
+            "from_view" if self.in_fault => {
+                let (sc, sr) = get_pair(a, "s");
+                let (ec, er) = get_pair(a, "e");
+                let t = TooDee::<T>::from(arr.view((sc as usize, sr as usize), (ec as usize, er as usize)));
+                let ids = origins_of(t.data());
+                drop(t);
+                json!({"k": "ids", "v": ids})
             }
             "clone" => {
                 use std::hash::{Hash, Hasher};
@@ -527,16 +564,56 @@ fn res_matches<T: CellT>(exp: &Value, got: &Value) -> bool {
     exp.get("v") == got.get("v")
 }
 
-/// Run one history case.  Returns the failures found (empty = conforms).
-pub fn run_case<T: CellT + std::hash::Hash>(steps: &[Value], capmode: u8, log: &mut Option<&mut Vec<Value>>) -> Vec<Fail> {
+/// One trace event: what the real code showed after one public call (Appendix A of DESIGN.md).
+fn event<T: CellT + std::hash::Hash>(m: &Machine<T>, op: &str, a: &Value, res: &Value, fault: Option<&Value>, fired: bool,
+                                     pre: &[u32], supplied: &[u32]) -> Value {
+    let observable = m.arr.is_some() && m.handle.is_none();
+    let post = if observable {
+        let o = observe::<T>(m.arr.as_ref().unwrap());
+        json!({"obs": true, "nc": o.nc.min(i32::MAX as usize) as u64, "nr": o.nr.min(i32::MAX as usize) as u64, "len": o.len as u64,
+               "data": if T::HAS_VALUE { o.data.clone() } else { vec![0u32; o.len.min(64)] },
+               "dup": o.dup, "dead": o.dead + o.garbage,
+               "ok": o.shape_ok && o.lens_ok && o.index_ok && o.cap_ok && o.redzone_ok})
+    } else {
+        json!({"obs": false, "nc": 0, "nr": 0, "len": 0, "data": [], "dup": 0, "dead": 0, "ok": !canary::damaged()})
+    };
+    let live: Vec<u32> = if T::TRACKED {
+        let mut v: Vec<u32> = ledger::live_serials().into_iter().filter(|s| !m.forgiven.contains(s)).filter_map(ledger::origin_of).collect();
+        v.sort_unstable();
+        v
+    } else {
+        Vec::new()
+    };
+    let nofault = json!({"kind": "none", "site": "none", "k": 0, "lie": "none"});
+    json!({"ev": op, "a": a, "res": res, "post": post,
+           "held": if T::HAS_VALUE { origins_of(&m.held) } else { Vec::new() },
+           "tracked": T::TRACKED, "valued": T::HAS_VALUE, "live": live,
+           "dd": ledger::double_drops().len() as u64 + ledger::garbage_drops() as u64,
+           "fault": fault.cloned().unwrap_or(nofault), "fired": fired, "pre": pre, "supplied": supplied})
+}
+
+fn lenmode_of(f: &Value) -> LenMode {
+    match f["lie"].as_str().unwrap_or("none") {
+        "minus1" => LenMode::Minus1,
+        "plus1" => LenMode::Plus1,
+        "max" => LenMode::Max,
+        _ => LenMode::True,
+    }
+}
+
+/// Run one history case.  Returns the failures found (empty = conforms).  Every call is also
+/// appended to `log` as a trace event for validation against TooDeeTrace.tla.
+pub fn run_case<T: CellT + std::hash::Hash>(steps: &[Value], capmode: u8, log: &mut Vec<Value>) -> Vec<Fail> {
     ledger::reset();
     canary::reset();
     fault::disarm();
     let mut m: Machine<T> = Machine::new(capmode);
     let mut fails: Vec<Fail> = Vec::new();
     let zst0 = ledger::zst_counts();
+    let mut faulted = false;
+    log.push(json!({"ev": "reset"}));
 
-    for (si, st) in steps.iter().enumerate() {
+    'steps: for (si, st) in steps.iter().enumerate() {
         let op = st["op"].as_str().expect("harness: op");
         let a = &st["a"];
         let x = &st["x"];
@@ -544,6 +621,51 @@ pub fn run_case<T: CellT + std::hash::Hash>(steps: &[Value], capmode: u8, log: &
         // current shape (for wrap-adversarial instantiation and unchanged-state checks)
         let pre = if m.handle.is_none() { m.arr.as_ref().map(|t| observe::<T>(t)) } else { None };
         let (nc, nr, len) = pre.as_ref().map(|o| (o.nc, o.nr, o.len)).unwrap_or((0, 0, 0));
+        if let Some(f) = st.get("fault") {
+            // ---- a fault step (C11 / C12): the outcome is judged by the specification's relation ----
+            let conc: Vec<usize> = idx.iter().map(|&v| v as usize).collect();
+            let pre_cells = u32list(&st["pre"]);
+            let supplied = u32list(&st["supplied"]);
+            if f["kind"] == "panic_at" {
+                fault::arm(fault::Site::parse(f["site"].as_str().unwrap()).expect("fault site"), f["k"].as_u64().unwrap() as u32);
+            }
+            m.in_fault = true;
+            let got = m.call(op, a, &conc, lenmode_of(f));
+            m.in_fault = false;
+            let fired = fault::fired();
+            fault::disarm();
+            // the same rule as TooDeeTrace.tla: an armed fault that never fired in a call that returned
+            // normally is an ordinary call
+            faulted = !(f["kind"] == "panic_at" && !fired && got["k"] != "panic");
+            log.push(event::<T>(&m, op, a, &got, Some(f), fired, &pre_cells, &supplied));
+            // ---- continuation: keep using the array (only if it is safe to touch at all) ----
+            let usable = m.handle.is_none() && m.arr.as_ref().map(|t| {
+                let o = observe::<T>(t);
+                o.shape_ok && o.dead == 0 && o.garbage == 0 && o.dup == 0
+            }).unwrap_or(false);
+            if usable {
+                let width = m.arr.as_ref().unwrap().num_cols();
+                let mut script: Vec<(String, Value)> = Vec::new();
+                if width > 0 {
+                    let items: Vec<u32> = (0..width as u32).map(|i| 9001 + i).collect();
+                    script.push(("push_row".into(), json!({"items": items})));
+                    script.push(("remove_col".into(), json!({"index": 0})));
+                    script.push(("d_next".into(), json!({"z": 0})));
+                    script.push(("d_drop".into(), json!({"z": 0})));
+                } else {
+                    script.push(("push_col".into(), json!({"items": [9001, 9002]})));
+                }
+                script.push(("fill".into(), json!({"v": 9100})));
+                script.push(("clone".into(), json!({"z": 0})));
+                script.push(("drop".into(), json!({"z": 0})));
+                for (cop, ca) in script {
+                    let cidx: Vec<usize> = index_args(&cop, &ca).iter().map(|&v| v as usize).collect();
+                    let got = m.call(&cop, &ca, &cidx, LenMode::True);
+                    log.push(event::<T>(&m, &cop, &ca, &got, None, false, &[], &[]));
+                }
+            }
+            break 'steps;
+        }
         let lists: Vec<Vec<usize>> = idx
             .iter()
             .enumerate()
@@ -559,14 +681,15 @@ pub fn run_case<T: CellT + std::hash::Hash>(steps: &[Value], capmode: u8, log: &
         }
         for conc in &combos {
             let got = m.call(op, a, conc, LenMode::True);
+            log.push(event::<T>(&m, op, a, &got, None, false, &[], &[]));
+            if x.is_null() {
+                continue; // driver mode: no precomputed expectation, the trace specification judges
+            }
             if !res_matches::<T>(&x["res"], &got) {
                 fails.push(Fail::new(si, "res", json!({"op": op, "args": a, "concrete": conc, "expected": x["res"], "observed": got})));
                 if got["k"] != "panic" && x["res"]["k"] == "panic" && m.arr.is_none() && !is_ctor(op) {
                     return fails;
                 }
-            }
-            if let Some(l) = log.as_mut() {
-                l.push(json!({"ev": op, "a": a, "concrete": conc, "res": got}));
             }
             // after every concrete call the state must be as the specification says
             check_state::<T>(&m, si, op, x, &mut fails);
@@ -582,25 +705,35 @@ pub fn run_case<T: CellT + std::hash::Hash>(steps: &[Value], capmode: u8, log: &
     let n = steps.len();
     if T::TRACKED {
         let leaked: Vec<u64> = ledger::live_serials().into_iter().filter(|s| !m.forgiven.contains(s)).collect();
-        if !leaked.is_empty() {
-            let o: Vec<u32> = leaked.iter().filter_map(|&s| ledger::origin_of(s)).collect();
-            fails.push(Fail::new(n, "ledger.leak_at_end", json!({"origins": o})));
-        }
+        let o: Vec<u32> = leaked.iter().filter_map(|&s| ledger::origin_of(s)).collect();
         let dd = ledger::double_drops();
-        if !dd.is_empty() || ledger::garbage_drops() > 0 {
-            fails.push(Fail::new(n, "ledger.double_drop", json!({"double": dd, "garbage": ledger::garbage_drops()})));
+        log.push(json!({"ev": "end", "live": o, "dd": dd.len() as u64 + ledger::garbage_drops() as u64, "tracked": true,
+                        "redzone_ok": !canary::damaged()}));
+        if !faulted {
+            if !leaked.is_empty() {
+                fails.push(Fail::new(n, "ledger.leak_at_end", json!({"origins": o})));
+            }
+            if !dd.is_empty() || ledger::garbage_drops() > 0 {
+                fails.push(Fail::new(n, "ledger.double_drop", json!({"double": dd, "garbage": ledger::garbage_drops()})));
+            }
         }
+    } else {
+        log.push(json!({"ev": "end", "live": [], "dd": 0, "tracked": false, "redzone_ok": !canary::damaged()}));
     }
-    if !T::HAS_VALUE {
+    if !T::HAS_VALUE && !faulted {
         let z = ledger::zst_counts();
         if z.0 - zst0.0 != z.1 - zst0.1 {
             fails.push(Fail::new(n, "ledger.zst_count", json!({"created": z.0 - zst0.0, "dropped": z.1 - zst0.1})));
         }
     }
-    if canary::damaged() {
+    if canary::damaged() && !faulted {
         fails.push(Fail::new(n, "redzone", json!({})));
     }
     fails
+}
+
+fn u32list(v: &Value) -> Vec<u32> {
+    v.as_array().map(|l| l.iter().map(|e| e.as_u64().unwrap() as u32).collect()).unwrap_or_default()
 }
 
 fn is_ctor(op: &str) -> bool {
